@@ -52,6 +52,8 @@ extensions:
 
 def materialise(p, fmt, pid):
     cfg = CONFIG
+    if "noschema" in p.get("gen", []):
+        cfg = cfg.replace("      schemaOutput: ./gen/schema.d.ts\n", "")
     if "resolvers" in p.get("gen", []):
         cfg += "      resolversOutput: ./gen/resolvers.d.ts\n"
     if "server" in p.get("gen", []):
